@@ -20,7 +20,7 @@ import (
 
 func init() {
 	register("C03",
-		"HSK-ORDER: the pattern tables XXPattern/KKPattern (read from the typed AST) are exactly the Noise patterns -> me / <- e,ee,s,es / -> s,se and, with both static keys as pre-messages, -> e,es,ss / <- e,ee,se, with ascending act numbers and alternating roles starting with the initiator; DoHandshake processes Pattern[i] for i = 0,1,2,.. in order, returns at the first error of an act, and calls split (the only function that keys the transport ciphers) only after the last act - so no side holds session keys after a failed act and the responder writes act 2 (the only act that carries the auth payload) only after act 1 was read; readMsgPattern cannot return nil without a successful DecryptAndHash (MAC check), for every act, version and payload size including the empty act-1 payload. HSK-ERR: no error of a handshake step (reader, key parsing, ECDH, decryption, key generation, token/pattern processing) is dropped, and every caller of DoHandshake (gRPC client/server handshake, Dial, the TCP listener) tests its error and leaves on the failing leg. HSK-SIB: writeTokens and readTokens handle every Token constant; their ee/es/se/ss cases are structurally identical (both sides derive the same keys); in the me case the unmasked ephemeral enters the transcript hash and only the masked point is written, the reader unmasks with the same passphraseEntropy and hashes the unmasked point; every pre-message mixes the local or remote static key and a missing remote key is an error; the pairing secret is used whole (stretchPassphrase hands its unmodified parameter to scrypt as password and salt, ekeMask/ekeUnmask turn the whole stretched value into the scalar, NewBrontideMachine stretches exactly ConnData.PassphraseEntropy()). SYM-1..4: the symmetric-state primitives all of this rests on have the Noise shape: mixHash folds the old digest and the whole input into the new digest, EncryptAndHash/DecryptAndHash authenticate under the running digest and hash the same ciphertext on both sides (the reader only after a successful tag check), mixKey ratchets the chaining key by HKDF over the whole DH output and re-keys the cipher, InitializeSymmetric starts digest and chaining key from SHA-256(protocol name). HSK-SIB pattern source: every place that configures a handshake machine takes the pattern from the HandshakePattern() of the connection data it hands to the machine, and ConnData.HandshakePattern returns XX exactly while no remote key is stored (a paired responder cannot be made to run the passphrase-only pattern again). HSK-SIB also: the bytes of the pairing secret are never written (no element store, copy or clear into a secret-holding slice) and stretchPassphrase returns the output of a scrypt.Key call of the same invocation without retaining its parameter. HSK-ERR also: both handshake entry points of NoiseGrpcConn install the new Machine before DoHandshake runs and run it on that Machine (a rejected handshake leaves no keys of the previous session behind). Not decided: the PAKE security argument; 'for all passphrase pairs' (cryptographic).",
+		"HSK-ORDER: the pattern tables XXPattern/KKPattern (read from the typed AST) are exactly the Noise patterns -> me / <- e,ee,s,es / -> s,se and, with both static keys as pre-messages, -> e,es,ss / <- e,ee,se, with ascending act numbers and alternating roles starting with the initiator; DoHandshake processes Pattern[i] for i = 0,1,2,.. in order, returns at the first error of an act, and calls split (the only function that keys the transport ciphers) only after the last act - so no side holds session keys after a failed act and the responder writes act 2 (the only act that carries the auth payload) only after act 1 was read; readMsgPattern cannot return nil without a successful DecryptAndHash (MAC check), for every act, version and payload size including the empty act-1 payload. HSK-ERR: no error of a handshake step (reader, key parsing, ECDH, decryption, key generation, token/pattern processing) is dropped, and every caller of DoHandshake (gRPC client/server handshake, Dial, the TCP listener) tests its error and leaves on the failing leg. HSK-SIB: writeTokens and readTokens handle every Token constant; their ee/es/se/ss cases are structurally identical (both sides derive the same keys); in the me case the unmasked ephemeral enters the transcript hash and only the masked point is written, the reader unmasks with the same passphraseEntropy and hashes the unmasked point; every pre-message mixes the local or remote static key and a missing remote key is an error; the pairing secret is used whole (stretchPassphrase hands its unmodified parameter to scrypt as password and salt, ekeMask/ekeUnmask turn the whole stretched value into the scalar, NewBrontideMachine stretches exactly ConnData.PassphraseEntropy()). SYM-1..4: the symmetric-state primitives all of this rests on have the Noise shape: mixHash folds the old digest and the whole input into the new digest, EncryptAndHash/DecryptAndHash authenticate under the running digest and hash the same ciphertext on both sides (the reader only after a successful tag check), mixKey ratchets the chaining key by HKDF over the whole DH output and re-keys the cipher, InitializeSymmetric starts digest and chaining key from SHA-256(protocol name). HSK-SIB pattern source: every place that configures a handshake machine takes the pattern from the HandshakePattern() of the connection data it hands to the machine, and ConnData.HandshakePattern returns XX exactly while no remote key is stored (a paired responder cannot be made to run the passphrase-only pattern again). HSK-SIB also: the bytes of the pairing secret are never written (no element store, copy or clear into a secret-holding slice) and stretchPassphrase returns the output of a scrypt.Key call of the same invocation without retaining its parameter. HSK-ERR also: both handshake entry points of NoiseGrpcConn install the new Machine before DoHandshake runs and run it on that Machine (a rejected handshake leaves no keys of the previous session behind). HSK-SIB also: every value that can reach a mixKey call of readTokens/writeTokens is result 0 of an ecdh call of that invocation; SIDFRESH (as C11): only NewConnData and a successful SetRemote write the remote key. Not decided: the PAKE security argument; 'for all passphrase pairs' (cryptographic).",
 		[]string{"ECDH is commutative; SHA-256/ChaCha20-Poly1305 are secure; a MAC over a transcript that includes the unmasked ephemeral fails unless both sides used the same passphrase"},
 		runC03)
 	register("C04",
